@@ -1403,6 +1403,26 @@ theorem loggerWaited_ok {cfg : Cfg} (ok : CfgOK cfg) (hfuel : cfg.fuel = 0) (hpe
       simp only [Bool.or_eq_false_iff] at hctl'
       obtain ⟨⟨⟨⟨⟨⟨⟨⟨h1, h2⟩, h3⟩, h4⟩, h5⟩, h6⟩, h7⟩, h8⟩, h9⟩ := hctl'
       exact (seg_data ok hfuel hperm inv rd m hm am hget hal s2 evs he' hb' q (by simp [h1, h2]) h3
-        (by simp [h4, h5, h6, h7]) h8 h9).2 X hXm hXf
+        (by simp [h4, h5, h6, h7]) h8 h9).2.1 X hXm hXf
+
+/-- **All clauses of `Spec.checkData` on one data frame.**  The model reads a data frame (header and payload complete, not
+a control type) from `rd.uid` in a state the abstract state `a` simulates and handles it, possibly followed by the periodic
+section; `evs` are the events after the `rd` marker.  Then `Spec.checkData`, evaluated by `Spec.segment` on the abstract
+state after the payload read, returns that state: the copies are as C01 demands, and every observer of FAILED_MESSAGE
+that can take it has been written, about every subscriber the frame could not be handed to, at least as many notices
+naming its module id and the frame's type, source and destination as there are such subscribers with that id (C14). -/
+theorem dataClauses_ok {cfg : Cfg} (ok : CfgOK cfg) (hfuel : cfg.fuel = 0) (hperm : OrdPerm cfg) {a : A} {s : State}
+    (inv : Inv cfg a s) (rd : Read) (hu0 : rd.uid ≠ 0) (m : Module) (hm : s.find rd.uid = some m)
+    (s2 : State) (q : QuietTo cfg (readOne cfg s rd) s2) (evs : List Ev) (he : s2.out = s.out ++ Ev.rd rd.uid :: evs)
+    (hb : Spec.brokenRd cfg rd = false) (hctl : Spec.isControl cfg rd.h.mtype = false) :
+    Spec.checkData cfg (Spec.afterBuf cfg a rd) rd.h evs = Spec.afterBuf cfg a rd := by
+  have he' : s2.out = (rdState cfg s rd).out ++ evs := by rw [rdState_out, he]; simp
+  obtain ⟨am, ham⟩ := Option.isSome_iff_exists.mp ((inv.sim.live rd.uid hu0).mpr (by simp [hm]))
+  obtain ⟨hget, hal⟩ := Spec.live_some.mp ham
+  unfold Spec.isControl at hctl
+  simp only [Bool.or_eq_false_iff] at hctl
+  obtain ⟨⟨⟨⟨⟨⟨⟨⟨h1, h2⟩, h3⟩, h4⟩, h5⟩, h6⟩, h7⟩, h8⟩, h9⟩ := hctl
+  exact (seg_data ok hfuel hperm inv rd m hm am hget hal s2 evs he' hb q (by simp [h1, h2]) h3
+    (by simp [h4, h5, h6, h7]) h8 h9).2.2
 
 end Pyrtma.Mgr
